@@ -212,6 +212,30 @@ CLAIMED["C01"] = dict(
     note=_NOTE + " Tier-3 reasons in ssrules/tables/C01_reviewed.json are human review.",
     technique="static analysis: panic-site census over MIR assert / call terminators with guard-dominance discharge, invariant rules, loop-progress (SCC) and recursion-cycle census")
 
+# Rules added after the seeded-change rounds (DESIGN section 9) — appended to the level statements
+_ADDED = {
+    "C01": " Also: a loop driven by Read::read leaves the loop on a zero-length read (two idioms).",
+    "C02": " Also (RECORD:seed): on the anchored edge the recording frame {id, depth 1, seeded with the start event} is pushed before record() is told to skip the last frame, and record() skips exactly that frame.",
+    "C03": " Also: every own key handed to the visitor is recorded in the seen-set first, unconditionally.",
+    "C05": " Also (OWN-NODE): VariantAccess methods touch the shared event stream only in `{Variant: payload}` mode; option null-likeness shares C06's STYLE rule.",
+    "C06": " Also (ORDER): deserialize_any attempts null, bool, int, float, string in that order.",
+    "C07": " Also (SLOT): a replayed alias gives its key/value slot back to the replayed node before the replay is scheduled, and only then.",
+    "C08": " Also: every replayed event is counted (by exactly 1) and compared before it is handed on.",
+    "C09": " Also (CHUNK): partial reads of a character's continuation bytes are retried in a loop that writes behind the bytes received.",
+    "C10": " Also (TAKE-ONCE): the stored I/O error is never taken after seen_doc_end was set in the same pump call (interprocedural set / take ordering).",
+    "C12": " Also: bare float words derived from the reader's core-parse fallback, Unicode edge blanks (sibling of str::trim), the block indentation indicator is relative and step-guarded and decided on the first non-empty line, long keys take the explicit form.",
+    "C13": " Also: HINT-RESET, SIBLING over the dash emitters and the variant positioners, and ALIGN / EMPTY, whose four sites are the recorded known findings K1 / K2 (printed as KNOWN-FINDING lines).",
+    "C14": " Also (PLACEHOLDER): the null delivered for a cyclic alias carries the alias's anchor id.",
+    "C15": " Also: every guard's Drop performs its restore on every path.",
+    "C16": " Also (USE-SITE): both event sources consult their use-site override before any other condition.",
+    "C17": " Also (COLUMN): the two-sided cropper is applied to context lines only, so the stored error line keeps the prefix the renderer indexes.",
+    "C18": " Also (USE-SITE, shared with C16).",
+    "C19": " Also (IDENTITY): expr / term initialise their result from the nested call's value without arithmetic.",
+    "C20": " Also (FLOW-KEY): keys of a flow mapping are tested with the flow rules.",
+}
+for _k, _v in _ADDED.items():
+    CLAIMED[_k] = dict(CLAIMED[_k], level=CLAIMED[_k]["level"] + _v)
+
 NOT_APPLICABLE = {("C%02d" % i): _NB for i in range(1, 21) if ("C%02d" % i) not in CLAIMED}
 
 CLAIMED["C10"] = dict(
